@@ -151,6 +151,6 @@ ck.finish({
 }, assumptions=[
     "x & mask_ (mask_ = capacity_-1, capacity_ a power of two) is modelled as x mod capacity_",
     "moved-from buffers are only re-allocated, destroyed or assigned to (not read) by the generated histories",
-    "SimpleVector: model tied by correspondence only in this round (no theorem yet); Normal mode",
+    "SimpleVector: Normal mode only (new T[n] / delete[] construct and destroy whole blocks); NoInit modes not modelled",
     "extraction: ExtrOcamlBasic only; nat/list stay Coq inductives",
 ])
